@@ -15,7 +15,12 @@ import (
 // Rng is splitmix64; every random choice of a run derives from one seed.
 type Rng struct{ s uint64 }
 
-func NewRng(seed uint64) *Rng { return &Rng{seed*0x9E3779B97F4A7C15 + 0x1234567} }
+func NewRng(seed uint64) *Rng {
+	// run the seed through the output function so that neighbouring seeds give unrelated streams
+	r := &Rng{seed ^ 0x5DEECE66D1234567}
+	r.s = r.U64() ^ (seed * 0xD1342543DE82EF95)
+	return r
+}
 func (r *Rng) U64() uint64 {
 	r.s += 0x9E3779B97F4A7C15
 	z := r.s
